@@ -8,6 +8,8 @@ def i32 (x : Int) : Int := (x + 2147483648) % 4294967296 - 2147483648
 def b2i (b : Bool) : Int := if b then 1 else 0
 /-- bitwise and of two values; used for alignment masks, defined on the 64-bit patterns -/
 def land (a b : Int) : Int := Int.ofNat (Nat.land (u64 a).toNat (u64 b).toNat)
+/-- bitwise or of two values, on the 64-bit patterns -/
+def lor (a b : Int) : Int := Int.ofNat (Nat.lor (u64 a).toNat (u64 b).toNat)
 /-- conversion to `signed char` / `unsigned char` -/
 def i8 (x : Int) : Int := (x + 128) % 256 - 128
 def u8 (x : Int) : Int := x % 256
